@@ -124,6 +124,7 @@ static int bufferConv(MPT_INTERFACE(convertable) *val, MPT_TYPE(type) type, void
 				MPT_ENUM(TypeIteratorPtr),
 				MPT_ENUM(TypeBufferPtr),
 				MPT_type_toVector('c'),
+				's',
 				0
 			};
 			*((const uint8_t **) ptr) = fmt;
@@ -155,6 +156,17 @@ static int bufferConv(MPT_INTERFACE(convertable) *val, MPT_TYPE(type) type, void
 				vec->iov_len = 0;
 			}
 		}
+		return MPT_ENUM(TypeIteratorPtr);
+	}
+	/* terminated text content */
+	if (type == 's') {
+		const MPT_STRUCT(buffer) *buf;
+		const char *txt;
+		if (!(buf = m->s._a._buf)
+		    || !memchr((txt = (const char *) (buf + 1)), 0, buf->_used)) {
+			return MPT_ERROR(BadValue);
+		}
+		if (ptr) *((const char **) ptr) = txt;
 		return MPT_ENUM(TypeIteratorPtr);
 	}
 	return MPT_ERROR(BadType);
